@@ -201,6 +201,23 @@ def run_thresholder(ctx, rng, S):
     it = to.interpolated_thresholder_
     ctx.check(bool(np.array_equal(np.asarray(it.predict(Xq, sensitive_features=qgc, random_state=3)), np.asarray(to.predict(Xq, sensitive_features=qgc, random_state=3)))),
               "interpolated_thresholder_predict_differs_from_optimizer_predict", wit=wit)
+    # query rows of a group that did not occur in fit, mixed with rows of known groups: if they are accepted, what is reported for
+    # them must still be a distribution (rejecting them is fine), and the rows of known groups keep their probabilities
+    unseen = "never_seen_in_fit" if not isinstance(g[0], (int, np.integer)) else 10 ** 6
+    qg2 = list(qg[:12]) + [unseen] * 4
+    qs2 = list(qs[:12]) + [sv[0] - 5.5, sv[-1] + 7.25, 3.5, -2.5]
+    try:
+        pu_raw = to._pmf_predict(np.asarray(qs2, float).reshape(-1, 1), sensitive_features=qg2)
+    except Exception:  # noqa: BLE001
+        ctx.ev("unseen_group_rows_rejected")
+        return
+    ctx.ev("unseen_group_queries")
+    pu = check_pmf(ctx, pu_raw, dict(wit, query_scores=qs2, query_groups=[repr(v) for v in qg2], note="query contains a group absent from fit"))
+    if pu is not None:
+        bad = [(qs2[i], repr(qg2[i]), float(pu[i]), float(table[(qs2[i], qg2[i])])) for i in range(12) if pu[i] != table[(qs2[i], qg2[i])]]
+        ctx.check(not bad, "thresholder_pmf_depends_on_the_other_rows_of_the_query", mismatches=bad[:4], wit=wit)
+        lab = np.asarray(to.predict(np.asarray(qs2, float).reshape(-1, 1), sensitive_features=qg2, random_state=5)).ravel()
+        ctx.check(set(np.unique(lab).tolist()) <= {0, 1}, "predict_returns_labels_outside_0_1", labels=np.unique(lab).tolist(), wit=wit)
 
 
 def run_eg_class(ctx, rng, S):
